@@ -41,7 +41,7 @@ class SpyTabularRegressor(RegressorMixin, SkBase):
     def fit(self, X, y):
         X = np.array(X, dtype=float, copy=True)
         y = np.array(y, dtype=float, copy=True)
-        LOGS[self.log_id].append({"op": "fit", "name": self.name, "obj": id(self), "X": X, "y": y})
+        LOGS[self.log_id].append({"op": "fit", "name": self.name, "obj": _uid(self), "X": X, "y": y})
         self.n_outputs_ = 1 if y.ndim == 1 else y.shape[1]
         self.multi_ = y.ndim > 1
         self.fit_no_ = sum(1 for e in LOGS[self.log_id] if e["op"] == "fit") - 1
@@ -52,7 +52,7 @@ class SpyTabularRegressor(RegressorMixin, SkBase):
         lg = LOGS[self.log_id]
         call_no = sum(1 for e in lg if e["op"] == "predict")
         out = np.array([[PRED_BASE + 10 * call_no + j + 1000 * r for j in range(self.n_outputs_)] for r in range(X.shape[0])])
-        lg.append({"op": "predict", "name": self.name, "obj": id(self), "fit_no": self.fit_no_, "X": X, "out": out.copy()})
+        lg.append({"op": "predict", "name": self.name, "obj": _uid(self), "fit_no": self.fit_no_, "X": X, "out": out.copy()})
         if not self.multi_:
             out = out[:, 0]
             if out.shape[0] == 1:
@@ -114,6 +114,17 @@ class Squeeze1(RegressorMixin, SkBase):
 _fc_classes = {}
 
 
+_uid_counter = itertools.count(1)
+
+
+def _uid(o):
+    """unique id of a spy instance (id() values are reused after garbage collection)"""
+    u = o.__dict__.get("_spy_uid")
+    if u is None:
+        u = o.__dict__["_spy_uid"] = next(_uid_counter)
+    return u
+
+
 def _idx_range(obj):
     if obj is None or len(obj) == 0:
         return None
@@ -144,14 +155,14 @@ def spy_forecaster_class(kind="naive"):
         cls = SpyPoly
 
     def fit(self, y, X=None, fh=None):
-        LOGS[self.log_id].append({"op": "fit", "name": self.name, "obj": id(self), "y": _idx_range(y), "X": _idx_range(X),
+        LOGS[self.log_id].append({"op": "fit", "name": self.name, "obj": _uid(self), "y": _idx_range(y), "X": _idx_range(X),
                                   "y_values": np.asarray(y, dtype=float).copy(), "y_index": list(y.index),
                                   "fh": None if fh is None else [int(v) for v in (fh.to_pandas() if hasattr(fh, "to_pandas") else np.atleast_1d(fh))],
                                   "fh_relative": getattr(fh, "is_relative", True), "in_update": getattr(self, "_in_update", False)})
         return Base.fit(self, y, X, fh) if X is None or kind == "naive" else Base.fit(self, y, None, fh)
 
     def update(self, y, X=None, update_params=True):
-        LOGS[self.log_id].append({"op": "update", "name": self.name, "obj": id(self), "y": _idx_range(y), "X": _idx_range(X),
+        LOGS[self.log_id].append({"op": "update", "name": self.name, "obj": _uid(self), "y": _idx_range(y), "X": _idx_range(X),
                                   "y_values": np.asarray(y, dtype=float).copy(), "y_index": list(y.index), "update_params": update_params})
         self._in_update = True
         try:
@@ -161,7 +172,7 @@ def spy_forecaster_class(kind="naive"):
 
     def predict(self, fh=None, X=None, return_pred_int=False, alpha=0.05):
         out = Base.predict(self, fh, X if kind == "naive" else None, return_pred_int=return_pred_int, alpha=alpha)
-        LOGS[self.log_id].append({"op": "predict", "name": self.name, "obj": id(self), "cutoff": int(self.cutoff),
+        LOGS[self.log_id].append({"op": "predict", "name": self.name, "obj": _uid(self), "cutoff": int(self.cutoff),
                                   "index": [int(v) for v in out.index], "values": np.asarray(out, dtype=float).copy()})
         return out
 
